@@ -107,7 +107,7 @@ def shapes_for(voc, tier):
 def main(tier, seed):
     from framework import Runner, Query
     R = Runner('C02', tier, seed); R.setup()
-    R.blocks = models_str.STD_BLOCKS if tier == 'quick' else None       # quick: names over Latin, CJK, fullwidth and pictograph blocks; thorough: all of Unicode
+    R.blocks = models_str.STD_BLOCKS       # symbolic name chars range over Latin..Latin Ext-B, CJK punctuation + ideographs, fullwidth forms, pictographs (thorough adds an all-Unicode query where noted)
     R.assumptions += ['values: every keyword of the lexical format\'s own tables in its role, arities 1..3 (quick: 2), nestings to depth 4, truth/budget lists of 0..4 numeric strings; names 1 (and 2) symbolic identifier chars containing no keyword',
                       'stamp strings are the format\'s own stamp forms (fixed stamps with a small integer)']
     it = R.engine.new_interp()
